@@ -198,8 +198,11 @@ func parseTrace(txt string) []call {
 }
 
 // abstract maps the calls that touch dir (the session directory) to Ops.
-func abstract(calls []call, dir, target string) (ops []Op, notes []string) {
-	names := map[string]int{target: 0}
+func abstract(calls []call, dir, target string, names map[string]int) (ops []Op, notes []string) {
+	if names == nil {
+		names = map[string]int{}
+	}
+	names[target] = 0
 	nameOf := func(p string) (int, bool) {
 		if filepath.Dir(p) != dir {
 			return 0, false
@@ -485,6 +488,97 @@ func (st *fsState) step(o Op) bool {
 	return false
 }
 
+// startState is the directory a save starts from: the session file (or none) and the
+// leftover files earlier interrupted saves left behind (names 1..k in this order).
+type startState struct {
+	HasTarget  bool
+	Target     []byte
+	TargetData *session.Data
+	Left       []leftFile
+	Desc       string // how the directory came about (two-step cases)
+}
+type leftFile struct {
+	Path string
+	B    []byte
+}
+
+func runFrom(start *startState, ops []Op) *fsState {
+	st := initFS(start.Target, start.HasTarget)
+	for i, l := range start.Left {
+		st.inodes[i+1] = &inode{dur: l.B, vol: l.B}
+		st.ddir[i+1] = i + 1
+	}
+	st.next = len(start.Left) + 1
+	for _, o := range ops {
+		if !st.step(o) {
+			return nil
+		}
+	}
+	return st
+}
+
+// dirStates enumerates what the whole directory (every name) can hold after a crash in st.
+func dirStates(st *fsState, model int) []map[int][]byte {
+	expand := func(d map[int]int, pick func(*inode) [][]byte) []map[int][]byte {
+		out := []map[int][]byte{{}}
+		var names []int
+		for n := range d {
+			names = append(names, n)
+		}
+		sort.Ints(names)
+		for _, n := range names {
+			nd := st.inodes[d[n]]
+			if nd == nil {
+				continue
+			}
+			var next []map[int][]byte
+			for _, m := range out {
+				for _, b := range pick(nd) {
+					c := map[int][]byte{}
+					for k, v := range m {
+						c[k] = v
+					}
+					c[n] = b
+					next = append(next, c)
+				}
+			}
+			out = next
+		}
+		return out
+	}
+	if model == 0 {
+		return expand(st.vdir(), func(nd *inode) [][]byte { return [][]byte{nd.vol} })
+	}
+	var out []map[int][]byte
+	for k := 0; k <= len(st.pend); k++ {
+		out = append(out, expand(applyDir(st.ddir, st.pend[:k]), func(nd *inode) [][]byte {
+			if !nd.dirty {
+				return [][]byte{nd.vol}
+			}
+			r := [][]byte{nd.dur}
+			for _, p := range selPrefixLens(len(nd.vol)) {
+				r = append(r, nd.vol[:p])
+			}
+			return r
+		})...)
+	}
+	return out
+}
+
+// dataOf parses a session file content the way Loader.Load does (nil if it does not load).
+func dataOf(b []byte) *session.Data {
+	var m session.StorageMemory
+	if err := m.StoreSession(context.Background(), b); err != nil {
+		return nil
+	}
+	l := session.Loader{Storage: &m}
+	d, err := l.Load(context.Background())
+	if err != nil {
+		return nil
+	}
+	return d
+}
+
 func run(old []byte, has bool, ops []Op) *fsState {
 	st := initFS(old, has)
 	for _, o := range ops {
@@ -591,6 +685,9 @@ type caseIn struct {
 	Old    *session.Data `json:"old,omitempty"`
 	New    *session.Data `json:"new"`
 	Kill   bool          `json:"kill"` // also really kill the child at every system call
+	// Next: sessions saved AFTER a crash of this save, on whatever the crash left in the
+	// directory (two-step scenarios: a shorter and a longer one)
+	Next []*session.Data `json:"next,omitempty"`
 	// Focus restricts the oracle report of a replay to one crash point (corpus cases)
 	Focus *focus `json:"focus,omitempty"`
 }
@@ -717,7 +814,11 @@ func classify(path string, c content, old, new *session.Data) (int, string) {
 	return clsOther, "loaded a session that is neither the previous nor the new one"
 }
 
-func (e *env) one(kind string, in caseIn) {
+func (e *env) one(kind string, in caseIn) { e.analyse(kind, in, nil, nil) }
+
+// analyse traces one save of in.New starting from start (nil: a directory holding in.Old or
+// nothing) and judges every crash point; root is the top-level case for replay files.
+func (e *env) analyse(kind string, in caseIn, start *startState, root *caseIn) {
 	c := e.c
 	e.n++
 	base := filepath.Join(e.root, fmt.Sprintf("case%d", e.n))
@@ -731,11 +832,20 @@ func (e *env) one(kind string, in caseIn) {
 
 	newB := marshal(in.New)
 	newD := canon(in.New)
-	var oldB []byte
-	var oldD *session.Data
-	if in.HasOld {
-		oldB = marshal(in.Old)
-		oldD = canon(in.Old)
+	if start == nil {
+		start = &startState{HasTarget: in.HasOld}
+		if in.HasOld {
+			start.Target = marshal(in.Old)
+			start.TargetData = canon(in.Old)
+		}
+	}
+	if root == nil {
+		root = &in
+	}
+	hasOld, oldB, oldD := start.HasTarget, start.Target, start.TargetData
+	names := map[string]int{path: 0}
+	for i, l := range start.Left {
+		names[filepath.Join(dir, filepath.Base(l.Path))] = i + 1
 	}
 	must(os.WriteFile(dataFile, newB, 0o600))
 	reset := func() {
@@ -743,10 +853,21 @@ func (e *env) one(kind string, in caseIn) {
 		for _, x := range ents {
 			_ = os.Remove(filepath.Join(dir, x.Name()))
 		}
-		if in.HasOld {
+		if hasOld {
 			must(os.WriteFile(path, oldB, 0o600))
 		}
+		for _, l := range start.Left {
+			must(os.WriteFile(filepath.Join(dir, filepath.Base(l.Path)), l.B, 0o600))
+		}
 	}
+	copyNames := func() map[string]int {
+		m := map[string]int{}
+		for k, v := range names {
+			m[k] = v
+		}
+		return m
+	}
+	startNames := copyNames()
 	reset()
 	txt, err := e.strace(dir, path, dataFile, "")
 	if err != nil {
@@ -755,11 +876,11 @@ func (e *env) one(kind string, in caseIn) {
 		c.Violate("harness-strace-failed", "StoreSession child or strace failed: "+err.Error(), -1, 0, in)
 		return
 	}
-	ops, notes := abstract(parseTrace(txt), dir, path)
+	ops, notes := abstract(parseTrace(txt), dir, path, names)
 	for _, n := range notes {
 		c.Note(n)
 	}
-	c.Count(fmt.Sprintf("%s:old=%v:ops=%d:bytes=%d", kind, in.HasOld, len(ops), len(newB)/100*100))
+	c.Count(fmt.Sprintf("%s:old=%v:ops=%d:bytes=%d", kind, hasOld, len(ops), len(newB)/100*100))
 	seq := make([]string, len(ops))
 	for i, o := range ops {
 		seq[i] = o.K
@@ -768,7 +889,7 @@ func (e *env) one(kind string, in caseIn) {
 
 	// the finished save must load as the new session
 	if b, err := os.ReadFile(path); err != nil || !bytes.Equal(b, newB) {
-		c.Violate("store-not-effective", "after StoreSession returned the file does not hold the new session", -1, 0, in)
+		c.Violate("store-not-effective", fmt.Sprintf("after StoreSession returned, the session file holds %d bytes that are not the %d-byte session just saved%s", len(b), len(newB), start.Desc), -1, 0, *root)
 	}
 
 	// table of distinct contents
@@ -805,11 +926,11 @@ func (e *env) one(kind string, in caseIn) {
 	judge := func(model, k, p int, ti int, real bool) {
 		t := table[ti]
 		c.Obs.Evaluations++ // one oracle judgement of one (crash point, possible content)
-		okc := t.cls == clsNew || t.cls == clsBoth || (in.HasOld && t.cls == clsOld) || (!in.HasOld && t.cls == clsNone)
+		okc := t.cls == clsNew || t.cls == clsBoth || (hasOld && t.cls == clsOld) || (!hasOld && t.cls == clsNone)
 		if okc {
 			return
 		}
-		if in.Focus != nil && (in.Focus.Model != model || in.Focus.After != k || in.Focus.Partial != p) {
+		if len(start.Left) == 0 && start.Desc == "" && in.Focus != nil && (in.Focus.Model != model || in.Focus.After != k || in.Focus.Partial != p) {
 			return
 		}
 		sig := "torn-file-after-crash"
@@ -834,7 +955,7 @@ func (e *env) one(kind string, in caseIn) {
 		if k < len(ops) {
 			at += " (next: " + ops[k].K + ")"
 		}
-		viols = append(viols, viol{sig, fmt.Sprintf("StoreSession interrupted by %s %s leaves %s; previous session present=%v [%s]", mname, at, what, in.HasOld, how), focus{model, k, p}})
+		viols = append(viols, viol{sig, fmt.Sprintf("StoreSession interrupted by %s %s leaves %s; previous session present=%v%s [%s]", mname, at, what, hasOld, start.Desc, how), focus{model, k, p}})
 	}
 
 	for model := 0; model <= 1; model++ {
@@ -851,7 +972,7 @@ func (e *env) one(kind string, in caseIn) {
 					w.Data = w.Data[:p]
 					pre = append(pre, w)
 				}
-				st := run(oldB, in.HasOld, pre)
+				st := runFrom(start, pre)
 				pt := point{Model: model, K: k, P: p}
 				if st == nil {
 					pt.Idx = []int{}
@@ -869,7 +990,7 @@ func (e *env) one(kind string, in caseIn) {
 				}
 				pts = append(pts, pt)
 				if k > 0 && k < len(ops) {
-					c.Nontrivial(fmt.Sprintf("%s|old=%v|m=%d|k=%d|p=%d|%d", strings.Join(seq, ","), in.HasOld, model, k, p, len(newB)))
+					c.Nontrivial(fmt.Sprintf("%s|old=%v|m=%d|k=%d|p=%d|%d", strings.Join(seq, ","), hasOld, model, k, p, len(newB)))
 				}
 			}
 		}
@@ -890,7 +1011,13 @@ func (e *env) one(kind string, in caseIn) {
 				continue
 			}
 			// the killed run must have executed exactly the first k observed operations
-			kops, _ := abstract(parseTrace(txt), dir, path)
+			kops, _ := abstract(parseTrace(txt), dir, path, func() map[string]int {
+				m := map[string]int{}
+				for k, v := range startNames {
+					m[k] = v
+				}
+				return m
+			}())
 			same := len(kops) == k && strings.Contains(txt, "killed by SIGKILL")
 			for i := 0; same && i < k; i++ {
 				same = kops[i].K == ops[i].K && bytes.Equal(kops[i].Data, ops[i].Data)
@@ -910,13 +1037,139 @@ func (e *env) one(kind string, in caseIn) {
 		}
 	}
 
+	// ---- two-step: whatever a crash of THIS save leaves in the directory is the start of the
+	// next save.  For every distinct directory a crash can leave (all crash points, both
+	// models, every name, not only the session file) a complete save of each in.Next (a
+	// shorter and a longer session) is run for real and must load as exactly that session;
+	// then the next save is itself traced and crashed from the directory with the biggest
+	// leftover file.
+	type twoViol struct{ sig, desc string }
+	var twoViols []twoViol
+	if len(in.Next) > 0 && start.Desc == "" {
+		inv := map[int]string{}
+		for p, id := range names {
+			inv[id] = p
+		}
+		type dstate struct {
+			files map[int][]byte
+			how   string
+		}
+		var dstates []dstate
+		seenD := map[string]bool{}
+		addState := func(files map[int][]byte, how string) {
+			var ids []int
+			for id := range files {
+				ids = append(ids, id)
+			}
+			sort.Ints(ids)
+			key := ""
+			for _, id := range ids {
+				key += fmt.Sprintf("%d:%x;", id, files[id])
+			}
+			if !seenD[key] {
+				seenD[key] = true
+				dstates = append(dstates, dstate{files, how})
+			}
+		}
+		for model := 0; model <= 1; model++ {
+			for k := 0; k <= len(ops); k++ {
+				plist := []int{-1}
+				if k < len(ops) && ops[k].K == "write" {
+					plist = append(plist, selLens(len(ops[k].Data))...)
+				}
+				for _, p := range plist {
+					pre := append([]Op{}, ops[:k]...)
+					if p >= 0 {
+						w := ops[k]
+						w.Data = w.Data[:p]
+						pre = append(pre, w)
+					}
+					if st := runFrom(start, pre); st != nil {
+						for _, f := range dirStates(st, model) {
+							addState(f, fmt.Sprintf("%s after %d of %d system calls (+%d bytes of the next write)", []string{"process crash", "power loss"}[model], k, len(ops), p))
+						}
+					}
+				}
+			}
+		}
+		materialise := func(files map[int][]byte) {
+			ents, _ := os.ReadDir(dir)
+			for _, x := range ents {
+				_ = os.Remove(filepath.Join(dir, x.Name()))
+			}
+			for id, b := range files {
+				if pth, ok := inv[id]; ok {
+					must(os.WriteFile(pth, b, 0o600))
+				}
+			}
+		}
+		best, bestLen := -1, -1
+		for i, ds := range dstates {
+			for id, b := range ds.files {
+				if id != 0 && len(b) > bestLen {
+					best, bestLen = i, len(b)
+				}
+			}
+			for j, nx := range in.Next {
+				nb, nd := marshal(nx), canon(nx)
+				materialise(ds.files)
+				c.Obs.Evaluations++
+				c.Count("two-step:complete-second-save")
+				var serr error
+				if pn, v := hx.Recover(func() {
+					serr = (&session.FileStorage{Path: path}).StoreSession(context.Background(), nb)
+				}); pn {
+					serr = fmt.Errorf("panic: %v", v)
+				}
+				var got *session.Data
+				var lerr error
+				if serr == nil {
+					got, lerr = (&session.Loader{Storage: &session.FileStorage{Path: path}}).Load(context.Background())
+				}
+				if serr != nil || lerr != nil || !reflect.DeepEqual(got, nd) {
+					onDisk, _ := os.ReadFile(path)
+					why := fmt.Sprint("StoreSession: ", serr)
+					if serr == nil && lerr != nil {
+						why = "Load: " + lerr.Error()
+					} else if serr == nil {
+						why = "Load returned a different session"
+					}
+					twoViols = append(twoViols, twoViol{"save-after-crash-corrupt", fmt.Sprintf("a save interrupted by %s left %d file(s) in the directory; the NEXT complete save (session #%d of next, %d bytes; interrupted one %d bytes) does not load as the saved session: %s; file on disk has %d bytes", ds.how, len(ds.files), j, len(nb), len(newB), why, len(onDisk))})
+				}
+			}
+		}
+		// trace and crash the next save from the directory with the biggest leftover
+		if best >= 0 {
+			ds := dstates[best]
+			st2 := &startState{Desc: "; directory left by " + ds.how + " of an earlier save"}
+			if b, ok := ds.files[0]; ok {
+				st2.HasTarget, st2.Target, st2.TargetData = true, b, dataOf(b)
+			}
+			var ids []int
+			for id := range ds.files {
+				if id != 0 {
+					ids = append(ids, id)
+				}
+			}
+			sort.Ints(ids)
+			for _, id := range ids {
+				st2.Left = append(st2.Left, leftFile{Path: inv[id], B: ds.files[id]})
+			}
+			if !st2.HasTarget || st2.TargetData != nil {
+				in2 := caseIn{HasOld: st2.HasTarget, New: in.Next[0]}
+				e.analyse(kind+"-second", in2, st2, root)
+			}
+		}
+		reset()
+	}
+
 	// ---- emit the correspondence case ----
 	// compact references: every byte string appears once in the case (see Run/Check_C31.v)
 	cref := func(ct content) string {
 		switch {
 		case !ct.exists:
 			return "RNone"
-		case in.HasOld && bytes.Equal(ct.b, oldB):
+		case hasOld && bytes.Equal(ct.b, oldB):
 			return "ROld"
 		case len(ct.b) <= len(newB) && bytes.Equal(ct.b, newB[:len(ct.b)]):
 			return fmt.Sprintf("(RNewPrefix %d%%nat)", len(ct.b))
@@ -945,7 +1198,11 @@ func (e *env) one(kind string, in caseIn) {
 	for i, r := range reals {
 		rl[i] = hx.Tuple(fmt.Sprint(r.K, "%nat"), fmt.Sprint(r.Idx, "%nat"))
 	}
-	term := hx.Tuple(hx.Opt(in.HasOld, hx.Bytes(oldB)), hx.Bytes(newB), hx.List(opl), hx.List(tbl), hx.List(pl), hx.List(rl))
+	lf := make([]string, len(start.Left))
+	for i, l := range start.Left {
+		lf[i] = hx.Bytes(l.B)
+	}
+	term := hx.Tuple(hx.Opt(hasOld, hx.Bytes(oldB)), hx.Bytes(newB), hx.List(opl), hx.List(tbl), hx.List(pl), hx.List(rl), hx.List(lf))
 	js := map[string]interface{}{"in": in, "ops": ops, "points": len(pts), "real_kills": len(reals), "table_classes": func() []int {
 		r := make([]int, len(table))
 		for i, t := range table {
@@ -954,16 +1211,29 @@ func (e *env) one(kind string, in caseIn) {
 		return r
 	}()}
 	sh, ix := c.Case(term, js)
-	c.Sample(map[string]interface{}{"has_old": in.HasOld, "new_bytes": len(newB), "sequence": seq, "crash_points": len(pts), "real_kills": len(reals), "distinct_contents": len(table)})
+	c.Sample(map[string]interface{}{"has_old": hasOld, "new_bytes": len(newB), "sequence": seq, "crash_points": len(pts), "real_kills": len(reals), "distinct_contents": len(table)})
 	seenSig := map[string]bool{}
 	for _, v := range viols {
 		if seenSig[v.sig] {
 			continue
 		}
 		seenSig[v.sig] = true
-		rp := in
-		f := v.f
-		rp.Focus = &f
+		rp := *root
+		if root == &in {
+			f := v.f
+			rp.Focus = &f
+		} else {
+			rp.Focus = nil
+		}
+		c.Violate(v.sig, v.desc, sh, ix, rp)
+	}
+	for _, v := range twoViols {
+		if seenSig[v.sig] {
+			continue
+		}
+		seenSig[v.sig] = true
+		rp := *root
+		rp.Focus = nil
 		c.Violate(v.sig, v.desc, sh, ix, rp)
 	}
 }
@@ -1048,6 +1318,10 @@ func main() {
 	for i := 0; i < n; i++ {
 		keyLen := []int{256, 0, 8, 256, 64, 1}[i%6]
 		in := caseIn{HasOld: i%2 == 0, New: genData(c.Rng, keyLen), Kill: i < kills}
+		if i < c.N(4, 40) {
+			// two-step: after a crash of this save, a shorter and a longer session are saved
+			in.Next = []*session.Data{genData(c.Rng, 0), genData(c.Rng, 300+c.Rng.Intn(200))}
+		}
 		if in.HasOld {
 			in.Old = genData(c.Rng, []int{256, 16}[c.Rng.Intn(2)])
 			if c.Rng.Chance(1, 8) {
@@ -1056,6 +1330,6 @@ func main() {
 		}
 		e.one("gen", in)
 	}
-	c.Obs.Rule = "one case = one real FileStorage.StoreSession traced with strace (previous session present/absent, auth key 0..256 bytes, config with 0..2 DC options, non-ASCII strings); evaluations = oracle judgements of one possible file content at one crash point (Loader.Load is called once per distinct content of a case, see load-calls); non-trivial = distinct (observed sequence, previous present, crash model, system-call boundary strictly inside the sequence, partial-write length, size); crash points = every boundary + write prefixes {0,1,n/2,n-1}; both models; the first cases are additionally SIGKILLed for real on entry of every system call"
+	c.Obs.Rule = "one case = one real FileStorage.StoreSession traced with strace (previous session present/absent, auth key 0..256 bytes, config with 0..2 DC options, non-ASCII strings); evaluations = oracle judgements of one possible file content at one crash point (Loader.Load is called once per distinct content of a case, see load-calls); non-trivial = distinct (observed sequence, previous present, crash model, system-call boundary strictly inside the sequence, partial-write length, size); crash points = every boundary + write prefixes {0,1,n/2,n-1}; both models; the first cases are additionally SIGKILLed for real on entry of every system call; two-step: for the first cases every distinct directory (all names, leftover temporary files included) a crash of the save can leave is materialised, a complete save of a shorter and of a longer session is run on it for real and must load as exactly that session, and the next save is traced and crashed again from the directory with the biggest leftover (correspondence case with leftovers)"
 	c.Finish()
 }
